@@ -577,6 +577,8 @@ def mon_c10(ex, info, col):
                         if us[1] < EPS and us[0] == S.T_WORKING:
                             runnable = sa["tasks"][tn][0] == S.T_WORKING  # blocked by a finish dependency: no claim beyond the state
                         want = info.unit(tn) if (ex.opts.get("auto_abs") and runnable) else 0.0
+                        if ex.opts.get("auto_abs") and us[0] == S.T_READY and tn in info.task_comp:
+                            continue  # whether a component-bound automatic task can start now depends on its placement: no claim
                         col.checks["c10.auto"] += 1
                         if abs(d - want) > TOL:
                             sig = "C10:automatic-task-progressed-at-absence-step-without-flag" if want == 0.0 else "C10:automatic-task-did-not-progress-at-absence-step-with-flag"
